@@ -110,12 +110,26 @@ Section Drivers.
       end
     end.
 
-  (** [--linewise] on stdin, serial and parallel alike: records of all lines
-      concatenated in input order, formatted once *)
+  (** [format_linewise]: every line's records are formatted on their own and the
+      pieces put together in input order; JSON is one document for all lines *)
+  Fixpoint fmt_units (rs : list (list record)) : outcome text :=
+    match rs with
+    | [] => Ok []
+    | r :: rest =>
+      match format_output (do_fmt o) r, fmt_units rest with
+      | Ok t, Ok ts => Ok (t ++ ts)
+      | Ok _, e => match e with Ok _ => Exit1 | Exit1 => Exit1 | Panic x => Panic x | OutOfFuel => OutOfFuel end
+      | Exit1, _ => Exit1 | Panic x, _ => Panic x | OutOfFuel, _ => OutOfFuel
+      end
+    end.
+  Definition format_linewise (rs : list (list record)) : outcome text :=
+    if do_json o then format_output (do_fmt o) (concat rs) else fmt_units rs.
+
+  (** [--linewise] on stdin, serial and parallel alike *)
   Definition linewise_stdin (input : text) (s : dstate) : result :=
     match units_seq None (get_lines input) with
     | Ok rs =>
-      match format_output (do_fmt o) (concat rs) with
+      match format_linewise rs with
       | Ok output => (out s (output ++ [10]), Done)
       | e => (s, fail_of e)
       end
@@ -239,7 +253,7 @@ Section Drivers.
           let lines := concat rs in
           if do_json o then lw_files_serial rest (jd ++ [(p, lines)]) s
           else
-            match format_output (do_fmt o) lines with
+            match format_linewise rs with
             | Ok output =>
               if do_inplace o then
                 match write_back s p output with
